@@ -1719,6 +1719,22 @@ impl Checker
                     {
                         self.viol_sys("C08", Some(k.0), format!("poll: system {} received {o} reactions for {:?}; at least {r} and at most {a} are due", k.0, k.1));
                         if o < r { if let Some(c) = causes.get(&k) { self.missed_polled.push((k.0, k.1, *c)); } }
+                        // C06: after a revocation that named the same component (or a despawn key) the registrations it did
+                        // not name must keep working
+                        if o < r
+                        {
+                            let related = self.revoked_keys_ever.iter().any(|(_, key)| match (k.1, key)
+                            {
+                                (Item::Rem(c, _), Key::Insertion(x)) | (Item::Rem(c, _), Key::Mutation(x)) | (Item::Rem(c, _), Key::Removal(x)) => *x == c,
+                                (Item::Rem(c, _), Key::EntityInsertion(_, x)) | (Item::Rem(c, _), Key::EntityMutation(_, x)) | (Item::Rem(c, _), Key::EntityRemoval(_, x)) => *x == c,
+                                (Item::Desp(_), Key::Despawn(_)) => true,
+                                _ => false,
+                            });
+                            if related
+                            {
+                                self.viol_sys("C06", Some(k.0), format!("poll: system {} did not get its reaction for {:?} although its registration was never revoked (an earlier revocation named the same component / a despawn key)", k.0, k.1));
+                            }
+                        }
                     }
                 }
             }
@@ -1786,6 +1802,18 @@ impl Checker
                 if missing || (extra && !w.is_empty())
                 {
                     self.viol_sys("C03", Some(sys), format!("run {run} of system {sys} (delivery {:?}) read {:?}, its event is {:?}", delivery, got, w));
+                    // C12 "each with its own data": one of several deliveries of one sender to this target
+                    if let Some(d) = delivery.and_then(|id| self.deliveries.get(&id).cloned())
+                    {
+                        if let Some(sender) = d.sender
+                        {
+                            let siblings = self.deliveries.values().filter(|x| x.id != d.id && x.sys == Some(sys) && x.sender == Some(sender)).count();
+                            if siblings >= 1
+                            {
+                                self.viol_sys("C12", Some(sys), format!("run {run} of system {sys} for delivery {} (one of {} deliveries of sender {:?} to it) read {:?}, its own data is {:?}", d.id, siblings + 1, sender, got, w));
+                            }
+                        }
+                    }
                 }
                 if extra
                 {
